@@ -25,7 +25,7 @@ ASSUMPTIONS = [
     'bulk deletes run in a session of their own (the session cache is not told about rows the database removed: C05)',
 ]
 RULE = ('histories = population (parent + dependents from a catalogue: one per relationship kind x required/optional x cascade flag, grandchildren, a second parent) created and '
-        'committed, then a deletion sequence in mode one-session / one-session-each / bulk / mixed / all-in-the-creating-session; quick: seeded sample, thorough: every '
+        'committed, then a deletion sequence in mode one-session / one-session-each / bulk / mixed / all-in-the-creating-session / via (each object reached through a referencing peer, unloaded when the row of the peer holds the reference); quick: seeded sample, thorough: every '
         'order of every population up to the size bound; non-trivial = at least one delete was executed against an object with at least one link; '
         'distinct = distinct (schema, dependents, order, mode)')
 
@@ -45,6 +45,10 @@ def targeted():
     for names in (('c1', 'o1'), ('c1g', 'o1'), ('c4', 'o2', 'o1'), ('m', 'o2', 'o1')):      # S15: earlier collections / a later-declared refusing one-to-one
         for mode in ('one', 'each'):
             out.append(('S15', names, [0], mode))
+    # S15D: P holds the columns of its one-to-one references; deleted as an unloaded placeholder reached through note.a01 ('via'), and directly
+    for names in (('n', 'pc'), ('n', 'pn'), ('n', 'pcc', 'pn'), ('nn', 'pc', 'pn')):
+        for mode in ('via', 'each', 'bulk'):
+            out.append(('S15D', names, [0], mode))
     return out
 
 
@@ -367,12 +371,36 @@ def search(ctx, deep):
             if key not in found or size < found[key][0]:
                 found[key] = (size, Failure(key, '%s %s order=%s mode=%s: %s' % (sname, list(names), order, mode, why),
                                             {'schema': sname, 'sessions': sessions}))
+    # fixed scenario: in-memory database, db_session(ddl=True) with a commit() in the middle, then a bulk delete of the parents
+    # (repo 78a42e8: foreign keys stayed switched off on the surviving connection).  Oracle: no child row references a deleted parent.
+    for inner in (True, False):
+        r = I.run_memory_ddl_bulk(inner_commit=inner)
+        evals += 1
+        why = judge_memory(r)
+        if why is not None:
+            key = 'bulk-delete-after-ddl-session-leaves-dangling-rows'
+            dist['deviation_' + key] += 1
+            found.setdefault(key, (0, Failure(key, 'in-memory db, db_session(ddl=True) %s, then P.select().delete(bulk=True): %s' % (
+                'with an inner commit()' if inner else 'without inner commit', why), {'scenario': 'memory-ddl-bulk', 'inner_commit': inner})))
     failures = [f for k, (n, f) in sorted(found.items())]
     return Search(evaluations=evals, failures=failures, nontrivial=len(nontriv), distribution=dict(dist), exhaustive=bool(deep),
                   samples=[{'oracle': 'rows + FK values after each commit == specification computed from the declared flags; PRAGMA foreign_key_check empty; refusal = ConstraintError and no change'}])
 
 
+def judge_memory(r):
+    parents = set(x if not isinstance(x, tuple) else x[0] for x in r['P'])
+    dangling = [k for k in r['K'] if k[1] not in parents]
+    if dangling: return 'child rows %s reference deleted parents (parents left: %s, PRAGMA foreign_keys seen by the session = %s, error = %s)' % (
+        dangling, sorted(parents), r.get('foreign_keys'), r['error'])
+    if r['error'] is None and (r['P'] or r['K']): return 'the bulk delete succeeded but rows remain: P %s K %s' % (r['P'], r['K'])
+    return None
+
+
 def replay(ctx, data):
+    if data.get('scenario') == 'memory-ddl-bulk':
+        r = I.run_memory_ddl_bulk(inner_commit=data.get('inner_commit', True))
+        why = judge_memory(r)
+        return None if why is None else Failure('bulk-delete-after-ddl-session-leaves-dangling-rows', why, data)
     sname, sessions = data['schema'], data['sessions']
     out = I.run_history(sname, sessions)
     why = judge(sname, sessions, out)
